@@ -488,7 +488,7 @@ pub(crate) mod __verif_k {
     }
 
     macro_rules! int_const_harness {
-        ($name:ident, $method:ident, $oracle:ident, $swap:expr) => {
+        ($name:ident, $method:ident, $oracle:ident, $swap:expr, $nz:expr) => {
             #[kani::proof]
             #[kani::stub(std::fmt::format, fmt_stub)]
             #[kani::stub(crate::gc::GC::trace, gc_trace_stub)]
@@ -501,7 +501,7 @@ pub(crate) mod __verif_k {
                 let gc: &mut GC = &mut gc;
                 let (l, r) = if $swap { (c, a) } else { (a, c) };
                 let res = Object::int(l).$method(Object::int(r), gc);
-                if r == 0 {
+                if $nz && r == 0 {
                     assert!(res.is_err());
                 } else {
                     let e = (l as i128).$oracle(r as i128);
@@ -520,12 +520,12 @@ pub(crate) mod __verif_k {
             }
         };
     }
-    int_const_harness!(c06_int_mul_const, mul, wrapping_mul, false);
-    int_const_harness!(c06_int_mul_const_l, mul, wrapping_mul, true);
-    int_const_harness!(c06_int_div_const, div, wrapping_div, false);
-    int_const_harness!(c06_int_rem_const, rem, wrapping_rem, false);
-    int_const_harness!(c06_int_div_const_l, div, wrapping_div, true);
-    int_const_harness!(c06_int_rem_const_l, rem, wrapping_rem, true);
+    int_const_harness!(c06_int_mul_const, mul, wrapping_mul, false, false);
+    int_const_harness!(c06_int_mul_const_l, mul, wrapping_mul, true, false);
+    int_const_harness!(c06_int_div_const, div, wrapping_div, false, true);
+    int_const_harness!(c06_int_rem_const, rem, wrapping_rem, false, true);
+    int_const_harness!(c06_int_div_const_l, div, wrapping_div, true, true);
+    int_const_harness!(c06_int_rem_const_l, rem, wrapping_rem, true, true);
 
     macro_rules! int_cmp_harness {
         ($name:ident, $method:ident, $op:tt) => {
